@@ -496,24 +496,8 @@ func ruleProvSign(c *Ctx, r *Rep) {
 		return
 	}
 	fromTable := func(v ssa.Value, what string) bool {
-		ex, ok := v.(*ssa.Extract)
-		if !ok {
-			return false
-		}
-		call, ok := ex.Tuple.(*ssa.Call)
-		if !ok || call.Call.StaticCallee() != tab {
-			return false
-		}
-		t := tab.Signature.Results().At(ex.Index).Type()
-		switch what {
-		case "hash":
-			return typeIs(t, "hash", "Hash")
-		case "hashid":
-			return typeIs(t, "crypto", "Hash")
-		case "oid":
-			return isOID(t)
-		}
-		return false
+		col, _ := c.algCol(tab, v)
+		return col == what
 	}
 	// the TBS marshal
 	var marshal *ssa.Call
@@ -793,12 +777,10 @@ func ruleSigAlgParams(c *Ctx, r *Rep) {
 					continue
 				}
 				k, isK := bin.Y.(*ssa.Const)
-				ex, isEx := bin.X.(*ssa.Extract)
-				if !isK || !isEx {
+				if !isK {
 					continue
 				}
-				call, isCall := ex.Tuple.(*ssa.Call)
-				if isCall && call.Call.StaticCallee() == tab && roles[k.Int64()] == "rsa" {
+				if col, _ := c.algCol(tab, bin.X); col == "key" && roles[k.Int64()] == "rsa" {
 					// and the other edge comes straight from the test's false edge
 					if phi.Block().Preds[1-e] == g.If.Block() {
 						okRule = true
